@@ -208,6 +208,15 @@ def check(ctx):
                 m = match(f"self.{S['resources']}.setdefault($k, $v)", c)
                 if m:
                     v = exf0.expand(m['v'], cfg.node_containing(c))
+                    mod_vars = {t_.id for st_ in f.module.tree.body if isinstance(st_, (ast.Assign, ast.AnnAssign))
+                                for t_ in (st_.targets if isinstance(st_, ast.Assign) else [st_.target]) if isinstance(t_, ast.Name)} - {'DEFAULT_CALENDAR'}
+                    glob = [x for x in ast.walk(v) if isinstance(x, ast.Name) and x.id in mod_vars and x.id not in f.params]
+                    if glob:
+                        found.append((c, None))
+                        o.refute(f, c, c, f"the default resource is taken from the module-level `{glob[0].id}` (`{src(v)[:60]}`): one Resource object per "
+                                          f"name is shared by every scheduler and calc() call in the process, so a resource edited after one schedule "
+                                          f"is no longer the default Monday-Friday 8-unit resource of the next")
+                        continue
                     if isinstance(v, ast.Call) and isinstance(v.func, ast.Name) and v.func.id == 'Resource':
                         extra = list(v.args[1:]) + [k.value for k in v.keywords if k.arg != 'name']
                         name_arg = v.args[0] if v.args else next((k.value for k in v.keywords if k.arg == 'name'), None)
@@ -217,6 +226,37 @@ def check(ctx):
                                               f"Monday-Friday 8-unit calendar")
                         elif name_arg is not None:
                             found.append((c, {'k': m['k'], 'k2': name_arg}))
+                    elif isinstance(m['v'], ast.Call):
+                        # the default comes from a package helper: follow it.  A helper that answers from module-level / class-level
+                        # state (a cache of default resources) hands the SAME Resource object to every scheduler and calc() call
+                        tg = [ci for ci in ctx.cg.calls_in(f) if ci.node is m['v'] and ci.kind == 'call' and ci.targets]
+                        if len(tg) == 1 and len(tg[0].targets) == 1:
+                            h = tg[0].targets[0]
+                            exh = Expander(prog, h, ctx.typer)
+                            mod_names = {t_.id for st_ in h.module.tree.body if isinstance(st_, (ast.Assign, ast.AnnAssign))
+                                         for t_ in (st_.targets if isinstance(st_, ast.Assign) else [st_.target]) if isinstance(t_, ast.Name)}
+                            shared, fresh, other = [], [], []
+                            for r_ in [n for n in walk_no_nested(h.node) if isinstance(n, ast.Return) and n.value is not None]:
+                                rv = exh.expand(r_.value)
+                                roots = {x.id for x in ast.walk(rv) if isinstance(x, ast.Name) and x.id in mod_names and x.id not in h.params
+                                         and x.id != 'DEFAULT_CALENDAR'}
+                                if roots:
+                                    shared.append((r_, sorted(roots)[0]))
+                                elif isinstance(rv, ast.Call) and isinstance(rv.func, ast.Name) and rv.func.id == 'Resource' and len(rv.args) == 1 \
+                                        and not rv.keywords and isinstance(rv.args[0], ast.Name) and rv.args[0].id in h.params:
+                                    fresh.append(r_)
+                                else:
+                                    other.append(r_)
+                            if shared:
+                                found.append((c, None))
+                                o.refute(f, c, c, f"the default resource comes from `{src(m['v'])[:50]}`, which answers from the module-level "
+                                                  f"`{shared[0][1]}` ({h.qual}): one Resource object per name is shared by every scheduler and calc() call "
+                                                  f"in the process, so a resource edited after one schedule is no longer the default Monday-Friday "
+                                                  f"8-unit resource of the next")
+                            elif fresh and not other and len(m['v'].args) == 1:
+                                pi = h.params.index(exh.expand(fresh[0].value).args[0].id)
+                                if pi == 0:
+                                    found.append((c, {'k': m['k'], 'k2': m['v'].args[0]}))
             membership_form = set()
             for n in walk_no_nested(f.node):
                 # `if k not in self.R: self.R[k] = Resource(k)`  ==  self.R.setdefault(k, Resource(k))
@@ -715,7 +755,26 @@ def ledger_shape(ctx, o):
     # query: every "collect row.units for row in self.rows if ..." site (comprehension or accumulation loop)
     exq = Expander(prog, qf, ctx.typer)
     qp = qf.params
-    sites = [c for c in facts.collects(qf) if match("$s.rows", c.iter) and isinstance(c.target, ast.Name)]
+    sites = [c for c in _collects(qf) if match("$s.rows", sched.whole_seq(c.iter) if hasattr(sched, 'whole_seq') else c.iter)
+             and isinstance(c.target, ast.Name)]
+    # a scan that can stop before the last row does not sum all bookings of the day: rows are in booking order, not in date order
+    early = False
+    row_loops = [n for n in walk_no_nested(qf.node) if isinstance(n, ast.For) and
+                 match("$s.rows", sched.whole_seq(n.iter) if hasattr(sched, 'whole_seq') else n.iter)]
+    for lp0 in row_loops:
+        c = facts.Collect(lp0, None, lp0.target, lp0.iter, [], None, 'loop')
+        inner = [x for x in walk_no_nested(c.node) if isinstance(x, (ast.For, ast.While)) and x is not c.node]
+        for x in walk_no_nested(c.node):
+            if isinstance(x, ast.Break) and not any(y is x for lp in inner for y in ast.walk(lp)) or \
+                    (isinstance(x, ast.Return) and any(y is x for st_ in c.node.body for y in ast.walk(st_))):
+                xc = [(t, p) for t, p in facts.node_conditions(prog, qf, x, ctx.typer, expand=False)
+                      if any(y is t for st_ in c.node.body for y in ast.walk(st_))]
+                o.refute(qf, x, x, f"the scan of the ledger rows stops early (`{src(x)}` when " + ', '.join(facts.cond_texts(xc))[:80] +
+                         "): rows are kept in booking order, not in date order, so bookings made earlier in the run for this day are not counted "
+                         "and the day looks free")
+                early = True
+    if early:
+        return
     # every answer must be computed from the rows: a return that reads another structure (a running index / cache) is only
     # equivalent when that structure is keyed by the ledger's day key; an index by a part of the date (day of year, day of
     # month, weekday) merges different calendar days
@@ -791,15 +850,27 @@ def ledger_shape(ctx, o):
                 if other is not None and fld == 'task' and positive and len(qp) > 3 and src(other) == qp[3]:
                     extra.append('task')
                     continue
-            # `task is None or row.task == task` style selector inside the filter
-            if len(qp) > 3 and (match(f"{qp[3]} is None or {tgt.id}.task == {qp[3]}", a) and pol or
-                                match(f"{qp[3]} is not None and {tgt.id}.task != {qp[3]}", a) and not pol):
-                extra.append('task-if-given')
-                continue
+            # `task is None or row.task == task` style selector inside the filter, in any equivalent spelling
+            if len(qp) > 3:
+                try:
+                    tt = [_sel_eval(a, T, E, qp[3], tgt.id) == pol for T, E in ((True, None), (False, True), (False, False))]
+                except _Unknown:
+                    tt = None
+                if tt == [True, True, False]:
+                    extra.append('task-if-given')
+                    continue
+                if tt == [True, True, True]:
+                    continue
             if len(qp) > 3 and ((match(f"{qp[3]} is None", a) and not pol) or (match(f"{qp[3]} is not None", a) and pol)):
                 continue
             o.undecided(qf, c.node, a, "unrecognised row filter")
         if has_day is None:
+            continue
+        task_none = any(facts.cond_is(t, p, f"{qp[3]} is None", want=True) for t, p in path_extra) if len(qp) > 3 else True
+        if len(qp) > 3 and not task_none and not extra and has_res and has_day and \
+                not any(isinstance(x, ast.Name) and x.id == qp[3] for t, p in c.conds for x in ast.walk(t)):
+            o.refute(qf, c.node, c.node, f"the ledger sum that answers a query for one task (`{qp[3]}` given) does not filter the rows by task: "
+                                         f"with balancing off, bookings of other tasks count against the task")
             continue
         if not has_res:
             o.refute(qf, c.node, c.node, "ledger sum does not filter by resource")
@@ -807,6 +878,59 @@ def ledger_shape(ctx, o):
             o.refute(qf, c.node, c.node, "ledger sum does not filter by day")
         else:
             o.site(qf, c.node, "filters: resource, midnight(day)" + (", " + extra[0] if extra else ''))
+
+
+def _sel_eval(e, T, E, task_p, row):
+    """truth value of a row-filter atom over T = `<task> is None`, E = `<row>.task == <task>` ('crash' never arises: comparing
+    with None is harmless)"""
+    if isinstance(e, ast.BoolOp):
+        is_and = isinstance(e.op, ast.And)
+        for v in e.values:
+            r = _sel_eval(v, T, E, task_p, row)
+            if r is (not is_and):
+                return r
+        return is_and
+    if isinstance(e, ast.UnaryOp) and isinstance(e.op, ast.Not):
+        return not _sel_eval(e.operand, T, E, task_p, row)
+    if match(f"{task_p} is None", e):
+        return T
+    if match(f"{task_p} is not None", e):
+        return not T
+    if isinstance(e, ast.Name) and e.id == task_p:
+        return not T
+    for pat, val in ((f"{row}.task == {task_p}", True), (f"{task_p} == {row}.task", True), (f"{row}.task is {task_p}", True),
+                     (f"{row}.task != {task_p}", False), (f"{task_p} != {row}.task", False), (f"{row}.task is not {task_p}", False)):
+        if match(pat, e):
+            if T:
+                return (not val)        # task is None: no stored row has task None, so `row.task == None` is False
+            return E if val else (not E)
+    raise _Unknown(src(e))
+
+
+def _collects(f):
+    """facts.collects plus running totals written as plain assignments: `acc = acc + E` / `acc = E + acc` inside a for loop"""
+    out = list(facts.collects(f))
+    cfg = cfg_of(f)
+    for n in walk_no_nested(f.node):
+        if not isinstance(n, ast.For):
+            continue
+        hdr = cfg.node_of(n)
+        for st in walk_no_nested(n):
+            if isinstance(st, ast.Assign) and len(st.targets) == 1 and isinstance(st.targets[0], ast.Name) and \
+                    isinstance(st.value, ast.BinOp) and isinstance(st.value.op, ast.Add):
+                acc = st.targets[0].id
+                l, r = st.value.left, st.value.right
+                elt = r if isinstance(l, ast.Name) and l.id == acc else (l if isinstance(r, ast.Name) and r.id == acc else None)
+                if elt is None:
+                    continue
+                inner = [x for x in walk_no_nested(n) if isinstance(x, ast.For) and x is not n and any(y is st for y in ast.walk(x))]
+                sn = cfg.node_of(st)
+                if inner or sn is None or hdr is None:
+                    continue
+                conds = [(t, p) for t, p in cfg.conditions(sn)
+                         if cfg.node_containing(t) is not None and cfg.dominates(hdr, cfg.node_containing(t)) and cfg.node_containing(t) is not hdr]
+                out.append(facts.Collect(n, elt, n.target, n.iter, conds, acc, 'loop'))
+    return out
 
 
 def _origin_nodes(f, sub):
